@@ -44,6 +44,8 @@
 (*        protocol under the old channel semantics (not reproducible at    *)
 (*        will; recorded in notes/X03.md, not claimed).                     *)
 (*   TimerPool_go123.cfg    Go123, ~AtomicFire, ~Drain    B1 B2 B3 hold     *)
+(*   TimerPool_fix.cfg      Drain, ~AtomicFire, PutOnlyStopped  B1 B2 B3 hold: *)
+(*        the proposed patch (a timer whose Stop failed is not pooled)      *)
 (*   TimerPool_misuse.cfg   Misuse                        B4 (ActiveNeverShared)  *)
 (*                                                                         *)
 (* Deliberately unconstrained: which pooled object Get returns and whether *)
@@ -56,7 +58,8 @@ EXTENDS Integers, Sequences, FiniteSets, TLC
 CONSTANTS NT,          \* timer objects that may be created
           NU,          \* users
           Rounds,      \* acquire/release cycles per user
-          Drain, AtomicFire, Go123, Misuse
+          Drain, AtomicFire, Go123, Misuse,
+          PutOnlyStopped   \* the proposed fix: ReleaseTimer pools the timer only when Stop reported it active
 
 TIDs == 1 .. NT
 Users == 1 .. NU
@@ -87,7 +90,7 @@ DoRecv(s, t) == [s EXCEPT !.ch[t] = 0]                                        \*
 \* ReleaseTimer as a whole, given what Stop reported
 DoRelease(s, t) == LET a == WasActive(s, t)  s1 == DoStop(s, t)
                        s2 == IF Drain /\ ~a THEN DoDrain(s1, t) ELSE s1
-                   IN DoPut(s2, t)
+                   IN IF PutOnlyStopped /\ ~a THEN s2 ELSE DoPut(s2, t)
 
 \* ---------------------------------------------------------------- the state machine (code granularity)
 VARIABLES s,       \* the timer record
@@ -135,7 +138,7 @@ RelDrain(u) == /\ pc[u] = "stopped"
                /\ pc' = [pc EXCEPT ![u] = "drained"]
                /\ UNCHANGED <<made, tm, act, left, rcv, again>>
 RelPut(u) == /\ pc[u] = "drained"
-             /\ s' = DoPut(s, tm[u]) /\ pc' = [pc EXCEPT ![u] = "idle"]
+             /\ s' = (IF PutOnlyStopped /\ ~act[u] THEN s ELSE DoPut(s, tm[u])) /\ pc' = [pc EXCEPT ![u] = "idle"]
              /\ again' = [again EXCEPT ![u] = IF again[u] = -1 THEN 0 ELSE tm[u]]
              /\ tm' = [tm EXCEPT ![u] = 0]
              /\ UNCHANGED <<made, act, left, rcv>>
